@@ -40,7 +40,7 @@ def projFor (mnext : Nat) (e : Ev) : Nat → Nat :=
   fun r => if e.new = some r then mnext else mnext + (if e.new.isSome then 1 else 0)
 
 /-- the event a step hands to the read-mask filter of a MASKED subscriber, if it does: the bus's event (`forward`),
-`include`'s replacement (`forwardIncl`, `emitIncl`), the merger's output (`emit`).  Same conditions, same order as `Events.step`. -/
+`include`'s replacement (`forwardIncl`, `emitIncl`), the merger's output (`emit`), a seed (`seed`).  Same conditions, same order as `Events.step`. -/
 def filtered (s : ES) : Step → Option Ev
   | .forward i =>
     match s.subs.find? (fun sb => sb.idx = i) with
@@ -74,6 +74,10 @@ def filtered (s : ES) : Step → Option Ev
       match sb.pending with
       | [] => none
       | c :: _ => if d = .skip then none else if sb.mask then some (convEv d c) else none
+  | .seed i e =>
+    match s.subs.find? (fun sb => sb.idx = i) with
+    | none => none
+    | some sb => if sb.mask then some e else none
   | _ => none
 
 inductive VStep (M : Type)
@@ -125,8 +129,8 @@ structure DrvEv where
   /-- per subscriber index: how many of its `out` events the consumer of a lossy Collection subscriber has actually taken
   (`emit` puts an event into `out` when the Pull goroutine has it in hand; a stalled consumer takes it later) -/
   taken : List Nat := []
-  /-- lossy Value subscribers whose Pull goroutine still holds the seed for a consumer that has not taken it -/
-  seedHeld : List Nat := []
+  /-- the seeds the Pull goroutines of lossy subscribers have still to build and hand over, in order (subscriber, event) -/
+  seedQ : List (Nat × Ev) := []
 
 def parseKind? (s : String) : Option Kind :=
   if s = "ADD" then some .add else if s = "UPDATE" then some .update
@@ -143,7 +147,7 @@ def showTok : Option Nat → String
 
 /-- an event shows the CONTENTS of its values -/
 def showEvV (v : VS Nat) (e : Ev) : String :=
-  s!"{showKind e.kind},{e.id},{showTok (e.old.map v.msgs)},{showTok (e.new.map v.msgs)}"
+  s!"{showKind e.kind},{e.id},{showTok (e.old.map v.msgs)},{showTok (e.new.map v.msgs)}" ++ (if e.lastSeed then ",L" else "")
 
 /-- the driver's read-mask projection on message tokens -/
 def drvPm (t : Nat) : Nat := 1000 + t
@@ -168,6 +172,10 @@ def pump : Nat → DrvEv → Nat → DrvEv
     | none => d
     | some sb =>
       if sb.out.length > d.taken.getD i 0 then d else
+      -- the seeds come first: they are sent before the goroutine starts to range over the merger's channel
+      match d.seedQ.find? (fun q => q.1 = i) with
+      | some q => { d with v := vstep drvPm d.v (.ev (.seed i q.2)), seedQ := d.seedQ.erase q }
+      | none =>
       match sb.pending with
       | [] => d
       | c :: _ =>
@@ -182,7 +190,11 @@ def pumpV (d : DrvEv) (i : Nat) : DrvEv :=
   match d.v.es.subs.find? (fun x => x.idx = i) with
   | none => d
   | some sb =>
-    if d.seedHeld.contains i || sb.out.length > d.taken.getD i 0 then d else
+    if sb.out.length > d.taken.getD i 0 then d else
+    -- the seed comes first
+    match d.seedQ.find? (fun q => q.1 = i) with
+    | some q => { d with v := vstep drvPm d.v (.ev (.seed i q.2)), seedQ := d.seedQ.erase q }
+    | none =>
     match sb.inbox with
     | [] => d
     | _ :: _ => { d with v := vstep drvPm d.v (.ev (.forward i)) }
@@ -252,6 +264,24 @@ def handleEv (d : DrvEv) (toks : List String) : DrvEv × String :=
     match parseBool? m with
     | some m => ({ d with v := vstep drvPm d.v (.ev (.sub true m)), incl := d.incl ++ [d.v.es.subs.length], taken := d.taken ++ [0] }, "ok")
     | none => (d, "!bad-op")
+  | ["seed", i, id, t, l] =>
+    -- subscriber `i` (opened without `WithUpdatesOnly`) is owed a seed for item `id`, whose stored message has token `t`
+    match i.toNat?, id.toNat?, t.toNat?, parseBool? l with
+    | some i, some id, some t, some l =>
+      match d.v.es.subs.find? (fun x => x.idx = i), cellOf d.v t with
+      | some sb, some r =>
+        let e : Ev := { kind := .add, id := id, old := none, new := some r, lastSeed := l }
+        if sb.value then (d, "!bad-op") else
+        if sb.lossy then (pump 1 { d with seedQ := d.seedQ ++ [(i, e)] } i, "ok") else
+        -- the consumer of a backpressure subscriber (drained) takes it at once
+        let v1 := vstep drvPm d.v (.ev (.seed i e))
+        match (v1.es.subs.find? (fun x => x.idx = i)).bind (fun x => x.out.getLast?) with
+        | some c =>
+          let (seen', k) := canon d.seen c
+          ({ d with v := v1, seen := seen' }, s!"#{k}:{showEvV v1 (v1.es.heap c)}")
+        | none => (d, "!bad-op")
+      | _, _ => (d, "!bad-op")
+    | _, _, _, _ => (d, "!bad-op")
   | ["poll", i] =>
     -- the consumer of the lossy Collection subscriber `i` takes the event its Pull goroutine holds, if it holds one
     match i.toNat? with
@@ -268,15 +298,36 @@ def handleEv (d : DrvEv) (toks : List String) : DrvEv × String :=
           let (seen', k) := canon d.seen r
           let d1 := { d with seen := seen', taken := d.taken.set i (n + 1) }
           (pump (sb.pending.length + 2) d1 i, s!"#{k}:{showEvV d.v (d.v.es.heap r)}")
+  | ["vstore", t] =>
+    -- the Value's initial message (`WithInitialValue`)
+    match t.toNat? with
+    | some t => ({ d with v := vstep drvPm d.v (.store t) }, "ok")
+    | none => (d, "!bad-op")
   | ["vsub", l, m, sd] =>
-    -- `sd`: the subscriber asked for the current value first (no `WithUpdatesOnly`): its Pull goroutine starts with the seed in hand
-    match parseBool? l, parseBool? m, parseBool? sd with
+    -- `sd`: `-` (`WithUpdatesOnly`) or the token of the current value: the subscriber's Pull goroutine first builds a seed
+    -- change for it (a new object), filters it and hands it over
+    match parseBool? l, parseBool? m, parseTok? sd with
     | some l, some m, some sd =>
-      ({ d with v := vstep drvPm d.v (.ev (.vsub l m)), taken := d.taken ++ [0],
-                seedHeld := if l && sd then d.seedHeld ++ [d.v.es.subs.length] else d.seedHeld }, "ok")
+      let i := d.v.es.subs.length
+      let d0 := { d with v := vstep drvPm d.v (.ev (.vsub l m)), taken := d.taken ++ [0] }
+      match sd with
+      | none => (d0, "ok")
+      | some t =>
+        match cellOf d.v t with
+        | none => (d, "!bad-op")
+        | some r =>
+          let e : Ev := { kind := .update, id := 0, old := none, new := some r, lastSeed := true }
+          if l then (pumpV { d0 with seedQ := d0.seedQ ++ [(i, e)] } i, "ok") else
+          -- the consumer of a backpressure subscriber (drained) takes the seed at once
+          let v1 := vstep drvPm d0.v (.ev (.seed i e))
+          match (v1.es.subs.find? (fun x => x.idx = i)).bind (fun x => x.out.getLast?) with
+          | some c =>
+            let (seen', k) := canon d0.seen c
+            ({ d0 with v := v1, seen := seen' }, s!"ok|#{k}:{showEvV v1 (v1.es.heap c)}")
+          | none => (d, "!bad-op")
     | _, _, _ => (d, "!bad-op")
   | ["vpoll", i] =>
-    -- the consumer of the lossy Value subscriber `i` takes what its Pull goroutine holds: the seed, else an event
+    -- the consumer of the lossy Value subscriber `i` takes what its Pull goroutine holds (the seed first)
     match i.toNat? with
     | none => (d, "!bad-op")
     | some i =>
@@ -284,7 +335,6 @@ def handleEv (d : DrvEv) (toks : List String) : DrvEv × String :=
       | none => (d, "!bad-op")
       | some sb =>
         if !(sb.lossy && sb.value) then (d, "!bad-op") else
-        if d.seedHeld.contains i then (pumpV { d with seedHeld := d.seedHeld.filter (· ≠ i) } i, "seed") else
         let n := d.taken.getD i 0
         match sb.out[n]? with
         | none => (d, "-")
